@@ -796,9 +796,15 @@ impl Rasn {
                     self.format_sequence_or_set_members(seq, &name.to_string())?;
                 let mut annotations = vec![set_annotation, self.format_tag(tld.tag.as_ref())];
 
-                // ITU-T X.680 clause 25.3: enable automatic tagging if none of the members are tagged type
+                // ITU-T X.680 clause 25.3: enable automatic tagging if none of the members are tagged type;
+                // the components inside a version group `[[ ]]` are components of this type, too
                 if self.tagging_environment == TaggingEnvironment::Automatic
-                    && !seq.members.iter().any(|m| m.tag.is_some())
+                    && !seq.members.iter().any(|m| {
+                        m.tag.is_some()
+                            || (m.name.starts_with(crate::common::INTERNAL_EXTENSION_GROUP_NAME_PREFIX)
+                                && matches!(&m.ty, ASN1Type::Sequence(group)
+                                    if group.members.iter().any(|gm| gm.tag.is_some())))
+                    })
                 {
                     annotations.push(quote!(automatic_tags));
                 }
